@@ -632,6 +632,10 @@ func (mru *memRepoUpload) Verify(expect digest.Digest) error {
 	mru.mu.Lock()
 	defer mru.mu.Unlock()
 	if mru.d.Digest() == expect {
+		// Close checks the digest again, content written by another request in between is not covered by this verification
+		if mru.expect == "" {
+			mru.expect = expect
+		}
 		return nil
 	}
 	if err := expect.Validate(); err != nil {
@@ -646,6 +650,9 @@ func (mru *memRepoUpload) Verify(expect digest.Digest) error {
 			return err
 		}
 		if mru.d.Digest() == expect {
+			if mru.expect == "" {
+				mru.expect = expect
+			}
 			return nil
 		}
 	}
